@@ -646,6 +646,7 @@ var Engine = &core.Engine{
 		"a single-member clause.Or(x) is gorm's own notation for 'joined with OR': it is generated as the only value of a call (meaning x), inside other single-member wrappers and as a member of a clause.Or list, never as a member of a clause.And list or next to another value of the same call (gorm reads And(a, Or(x)) as a OR x; the statement does not fix that reading); a wrapper over an AND tree is not given to Not",
 		"tight raw strings use only spellings that SQLite accepts: no gap only where the neighbour of AND / OR is not a word character; an @name is always followed by whitespace; no '?' or '@' inside literals and comments",
 		"a plain (non-pointer) value is not given to a read finisher, nor to Delete on the soft-delete table (gorm refuses it: ErrInvalidValue); slices of pointers hold no nil element (gorm panics on it in Update)",
+		"Delete: a model value given to Model() as a plain value (record or slice) is never combined with a finisher value that is a plain value too (Model(Row{ID: 3}).Delete(Row{})): gorm's Statement.Model defaults to the finisher value, and a by-value model of the same type cannot be told from that default without a new flag, so its key is not added; plain finisher values with pointer models and plain models with pointer finisher values are generated",
 		"a row with key 0 exists only on the single-column-key tables; a record naming it is a record without key",
 	},
 	Cases: func(tier string) int {
